@@ -355,6 +355,10 @@ impl Case {
             Op::Checkpoint => {
                 if res == "ok" {
                     r.snaps.insert(obs.generation, r.order.clone());
+                    // a checkpoint that reports success must be there to reload
+                    if !disk_generations(&self.dir).contains(&obs.generation) {
+                        fails.push(("lru-checkpoint-not-on-disk".into(), format!("checkpoint_to_disk returned Ok at generation {} (prev {}) but no file of that generation exists afterwards, so the state just saved cannot be reloaded", obs.generation, obs.prev)));
+                    }
                 }
             }
             Op::Load(g) => {
@@ -451,16 +455,24 @@ impl Case {
         // without that key
         if let (Some(snap), Some(z)) = (&restored_from, self.zero_idx) {
             if snap.contains(&z) {
-                let mut r2 = Reference { cap: self.reference.cap, order: snap.iter().filter(|x| **x != z).cloned().collect(), snaps: HashMap::new() };
+                // what the code does: the zero entry stays LINKED (so run_cycle's eviction walks over
+                // it and counts it) but is not in the key map (so it is not counted as loaded)
+                let mut r2 = Reference { cap: self.reference.cap, order: snap.clone(), snaps: HashMap::new() };
+                let mut stats_ok = true;
                 if let Op::RunCycle(limit, avg) = op {
+                    let loaded = snap.len() - 1;
+                    let (mut n, mut f) = (0usize, 0u64);
                     if *limit > 0 && *avg > 0 {
-                        let cur = r2.order.len() as u64 * *avg;
-                        if cur > *limit { r2.evict_to(cur - *limit, *avg); }
+                        let cur = loaded as u64 * *avg;
+                        if cur > *limit { (n, f) = r2.evict_to(cur - *limit, *avg); }
                     }
+                    let visible = r2.order.iter().filter(|x| **x != z).count();
+                    stats_ok = res == format!("ok loaded={loaded} evicted={n} freed={f} active={visible}");
                 }
+                r2.order.retain(|x| *x != z);
                 let has2: Vec<bool> = (0..self.keys.len()).map(|i| r2.order.contains(&i)).collect();
                 let ord2: Vec<Option<usize>> = r2.order.iter().map(|i| Some(*i)).collect();
-                if obs.len == r2.order.len() && obs.has == has2 && obs.order.as_ref() == Some(&ord2) {
+                if stats_ok && obs.len == r2.order.len() && obs.has == has2 && obs.order.as_ref() == Some(&ord2) {
                     cx.fail("lru-zero-key-reload", &format!("checkpoint held the all-zero key; after reload it is gone (len {} instead of {}): {}", obs.len, snap.len(), obs.text()), &log);
                     self.dead = true;
                     return false;
@@ -614,10 +626,13 @@ fn replay(cx: &mut Ctx, lines: &[String]) {
         }
         match cur.as_mut() {
             Some(c) if !c.dead => match Op::parse(&t, c.keys.len()) {
-                Some(op) => { let alive = c.apply(cx, &op); println!("impl  {l} alive={alive}"); }
+                Some(op) => { c.apply(cx, &op); }
                 None => cx.s.line(l, "bad-op"),
             },
-            _ => cx.s.line(l, "bad-op"),
+            // the oracle has already failed on this case: the state is undefined from there on,
+            // the remaining lines are not run (and not sent to the model either)
+            Some(_) => println!("skipped after oracle failure: {l}"),
+            None => cx.s.line(l, "bad-op"),
         }
     }
     if let Some(c) = cur.take() { c.end(cx); }
@@ -669,25 +684,37 @@ fn main() {
     for k in 0..4 { alpha_a.push(Op::Touch(k)); }
     for k in 0..4 { alpha_a.push(Op::Remove(k)); }
     alpha_a.extend([Op::EvictTail, Op::EvictTo(2, 1), Op::EvictTo(1, 0), Op::Reset]);
-    let la = if thorough { 6 } else { 5 };
+    // the same over three keys only, for one more step of depth
+    let keys3: Vec<Key> = vec![ZERO, [0x11; 9], [0, 0, 0, 0, 0, 0, 0, 0, 1]];
+    let mut alpha_a3: Vec<Op> = vec![];
+    for k in 0..3 { alpha_a3.push(Op::Touch(k)); }
+    for k in 0..3 { alpha_a3.push(Op::Remove(k)); }
+    alpha_a3.extend([Op::EvictTail, Op::EvictTo(2, 1), Op::Reset]);
+    let la = if thorough { 5 } else { 4 };
     for cap in 1..=3u32 {
         for len in 1..=la {
-            // the longest length only for the two larger alphabets' worth of budget
             exhaustive(&mut cx, cap, &keys4, &alpha_a, len, 1);
         }
     }
+    exhaustive(&mut cx, 2, &keys3, &alpha_a3, la + 1, 1);
+    if thorough {
+        exhaustive(&mut cx, 1, &keys3, &alpha_a3, la + 1, 1);
+        exhaustive(&mut cx, 3, &keys4, &alpha_a3, la + 1, 1);
+    }
+    cx.s.extra.insert("exhaustive_in_memory_len".into(), serde_json::json!({"caps 1-3, 4 keys, 12 ops": la, "3 keys, 9 ops (quick: cap 2; thorough: caps 1-3)": la + 1}));
     // (B) exhaustive persistence histories
-    let keys3: Vec<Key> = vec![ZERO, [0x11; 9], [0, 0, 0, 0, 0, 0, 0, 0, 1]];
     let alpha_b: Vec<Op> = vec![
         Op::Touch(0), Op::Touch(1), Op::Touch(2), Op::Remove(1), Op::EvictTail, Op::EvictTo(1, 1), Op::Bump, Op::Checkpoint,
         Op::Load(1), Op::Load(2), Op::RunCycle(0, 1), Op::RunCycle(1, 1), Op::Reset, Op::Reopen,
     ];
-    let lb = if thorough { 5 } else { 4 };
+    let lb = if thorough { 4 } else { 3 };
     for cap in 1..=3u32 {
         for len in 1..=lb {
             exhaustive(&mut cx, cap, &keys3, &alpha_b, len, 1);
         }
     }
+    exhaustive(&mut cx, 2, &keys3, &alpha_b, lb + 1, 1);
+    cx.s.extra.insert("exhaustive_persistence_len".into(), serde_json::json!({"caps 1-3, 3 keys, 14 ops": lb, "cap 2": lb + 1}));
     // (C) random long histories
     let n_random = if thorough { 6000 } else { 600 };
     let caps: [u32; 16] = [0, 1, 2, 3, 4, 4, 5, 7, 8, 15, 16, 17, 31, 32, 33, 64];
